@@ -523,6 +523,7 @@ func main() {
 		switch m {
 		case "special":
 			genSpecial(e)
+			genSeeds(e)
 		case "tagtable":
 			genTagTable(e, false)
 			summary["tagtable_exhaustive"] = "6 class spellings x 8 operation spellings (+ no tag, 3 odd tags) x 5^3 override tables"
